@@ -162,3 +162,9 @@ func Yield() {}
 func Settle() { time.Sleep(30 * time.Millisecond) }
 
 func float64frombits(b uint64) float64 { return math.Float64frombits(b) }
+
+// Observe logs a value; executor and native logs are compared by `gosmt selftest`.
+func Observe(tag string, v uint64) { fmt.Printf("VERIF-OBSERVE %s %d\n", tag, v) }
+
+// ObserveStr logs a string value.
+func ObserveStr(tag string, s string) { fmt.Printf("VERIF-OBSERVE %s %q\n", tag, s) }
